@@ -5,16 +5,24 @@ LEVEL = "other"
 RULES = {"C08.R1", "C08.R3", "C08.R4", "C08.R5"}
 
 
+# necessary conditions shared with sibling properties, reported under C08's own ids:
+#  R8  the library accepts what the specification's algorithm produces: rejection inventories, length guards, returned message, refusals of parse_raw_token
+#  R5  the payload segment's engine;  R9  the footer / assertion the caller gave is the one that is used (setters, wrappers)
+ALIAS = {"C01.R8": "C08.R8", "C01.R9": "C08.R8", "C01.R10": "C08.R8", "C02.R6": "C08.R8", "C02.R7": "C08.R8", "C02.R9": "C08.R8",
+         "C01.R5": "C08.R5", "C02.R3": "C08.R5", "C05.R5": "C08.R9", "C06.R4": "C08.R9"}
+
+
 def extra(res, facts, entries, protos):
     from . import c08_extra
     c08_extra.run(res, facts, entries, protos)
+    _proto.refusal_rules(res, "C08.R8", facts)
 
 
 def run(tier):
     return _proto.run_rules(
         "C08", LEVEL, RULES,
-        {"C08.R1": 5, "C08.R3": 4, "C08.R4": 16, "C08.R5": 11},
+        {"C08.R1": 8, "C08.R3": 4, "C08.R4": 16, "C08.R5": 11 + 8, "C08.R8": 20, "C08.R9": 30},
         "the skeleton of the 16 core entry points (PAE component lists, nonce derivations, payload layout, primitives named by type) and the constants of the key split are compared with tables transcribed from Version1-4.md / Common.md; "
         "format_token is evaluated over {no footer, empty footer, non-empty footer}; PAE::le64 / parse are evaluated over a symbolic u64 / piece list",
         ["byte-exactness of the primitives (ring, aes, chacha20, blake2, hmac, sha2, ed25519-dalek, p384)", "the transcription rules/protocol.py SPEC_* of the specification"],
-        extra, "byte-exactness of the primitives and interoperability runs against an independent implementation (execution)")
+        extra, "byte-exactness of the primitives and interoperability runs against an independent implementation (execution)", alias=ALIAS)
